@@ -173,4 +173,208 @@ theorem slotDotK_spec (q h : Nat) (hq : 1 < q) (hq31 : q < 2 ^ 31) (hh : 16 ≤ 
     rw [this, hdot]
   · unfold pairTerms at hlt; omega
 
+/-! ### the lane and the pipeline of a sum of products -/
+
+theorem getD_map_cz (q : Nat) (l : List Nat) (i : Nat) (hi : i < l.length) : (l.map (cz q)).getD i 0 = cz q (l.getD i 0) := by
+  simp [List.getD, hi]
+
+theorem map_sumPolys (q n : Nat) (polys : List Poly) (h : ∀ a ∈ polys, a.length = n) :
+    (Hal.sumPolys n polys).map (ci q) = psum n (polys.map (fun a => a.map (ci q))) := by
+  unfold Hal.sumPolys
+  have gen : ∀ (acc : Poly), (polys.foldl Hal.polyAdd acc).map (ci q) = (polys.map (fun a => a.map (ci q))).foldl addL (acc.map (ci q)) := by
+    induction polys with
+    | nil => intro acc; rfl
+    | cons a as ih =>
+      intro acc
+      simp only [List.foldl_cons, List.map_cons]
+      rw [ih (fun a' ha' => h a' (by simp [ha'])), map_polyAdd]
+  rw [gen, foldl_addL n _ _ (by simp [Hal.zeroP]) (by
+    intro l hl
+    simp only [List.mem_map] at hl
+    obtain ⟨a, ha, rfl⟩ := hl
+    simp [h a ha])]
+  have hz : (Hal.zeroP n).map (ci q) = (zeros n : List (ZMod q)) := by simp [Hal.zeroP, zeros, ci]
+  rw [hz]
+  have hl : (psum n (polys.map (fun a => a.map (ci q))) : List (ZMod q)).length = n := psum_length _ _ (by
+    intro l hl
+    simp only [List.mem_map] at hl
+    obtain ⟨a, ha, rfl⟩ := hl
+    simp [h a ha])
+  have := zeros_addL (psum n (polys.map (fun a => a.map (ci q))) : List (ZMod q))
+  rw [hl] at this
+  exact this
+
+/-- **one lane of the real sum-of-products pipeline** -/
+theorem laneSumK_real (P : PrimeSet) (k j h : Nat) (g : LaneFwd P k) (gi : LaneInv P k) (hj1 : 1 ≤ j) (hj : j ≤ 16)
+    (hh : 16 ≤ h) (hh2 : h < 32) (t ti : TableK) (ht : nttTableK P k (2 ^ j) = .ok t) (hti : inttTableK P k (2 ^ j) = .ok ti)
+    (rows : List (Poly × Poly)) (hell : rows.length < 10000)
+    (hlen : ∀ r ∈ rows, r.1.length = 2 ^ j ∧ r.2.length = 2 ^ j)
+    (hrng : ∀ r ∈ rows, (∀ c ∈ r.1, -(2 ^ 63) ≤ c ∧ c < 2 ^ 63) ∧ (∀ c ∈ r.2, -(2 ^ 63) ≤ c ∧ c < 2 ^ 63)) :
+    (laneSumK (P.qs.getD k 1) h (2 ^ j) (nttK t) (inttK ti) rows).map (cz (P.qs.getD k 1)) =
+      (Hal.sumPolys (2 ^ j) (rows.map (fun r => Hal.negMul r.1 r.2))).map (ci (P.qs.getD k 1)) := by
+  set q := P.qs.getD k 1 with hq
+  set n := 2 ^ j with hn
+  have hqg := g.q_gt
+  have hql := g.q_lt
+  have hω := omegaZ_pow P k j g hj
+  set bf := fun (a : Poly) => a.map (fun c => bFromU64K q (asU64 c)) with hbf
+  -- facts about each transformed row
+  have rowfacts : ∀ r ∈ rows,
+      (nttK t (bf r.2)).map (cz q) = nttM (omegaZ P k j) j (r.2.map (ci q)) ∧ (nttK t (bf r.2)).length = n ∧ AllLe (2 ^ 64 - 1) (nttK t (bf r.2)) ∧
+      (nttK t (bf r.1)).map (cz q) = nttM (omegaZ P k j) j (r.1.map (ci q)) ∧ (nttK t (bf r.1)).length = n := by
+    intro r hr
+    obtain ⟨l1, l2⟩ := hlen r hr
+    obtain ⟨r1, r2⟩ := hrng r hr
+    obtain ⟨bp, up⟩ := map_bFrom q (by omega) (by omega) r.1 r1
+    obtain ⟨bx, ux⟩ := map_bFrom q (by omega) (by omega) r.2 r2
+    obtain ⟨ep, np, _⟩ := nttK_real P k j g hj1 hj t ht (bf r.1) (by simpa [hbf] using l1) up
+    obtain ⟨ex, nx, uux⟩ := nttK_real P k j g hj1 hj t ht (bf r.2) (by simpa [hbf] using l2) ux
+    rw [bp] at ep; rw [bx] at ex
+    exact ⟨ex, nx, uux, ep, np⟩
+  set tr := rows.map (fun r => (nttK t (bf r.2), nttK t (bf r.1))) with htr
+  set slots := (List.range n).map (fun i => slotDotK q h (tr.map (fun r => (r.1.getD i 0, r.2.getD i 0)))) with hslots
+  have hslen : slots.length = n := by simp [hslots]
+  -- every slot
+  have hslot : ∀ i, i < n → cz q (slots.getD i 0) =
+      ((psum n (rows.map (fun r => mulL (nttM (omegaZ P k j) j (r.2.map (ci q))) (nttM (omegaZ P k j) j (r.1.map (ci q)))))).getD i 0) ∧
+      slots.getD i 0 ≤ 2 ^ 64 - 1 := by
+    intro i hi
+    have e0 : slots.getD i 0 = slotDotK q h (tr.map (fun r => (r.1.getD i 0, r.2.getD i 0))) := by
+      simp [hslots, List.getD, hi]
+    rw [e0]
+    obtain ⟨e1, e2⟩ := slotDotK_spec q h (by omega) hql hh hh2 (tr.map (fun r => (r.1.getD i 0, r.2.getD i 0)))
+      (by simpa [htr] using hell) (by
+        intro p hp
+        simp only [htr, List.map_map, List.mem_map, Function.comp] at hp
+        obtain ⟨r, hr, rfl⟩ := hp
+        obtain ⟨_, nx, uux, _, _⟩ := rowfacts r hr
+        have : (nttK t (bf r.2)).getD i 0 ∈ nttK t (bf r.2) := by
+          rw [List.getD_eq_getElem?_getD, List.getElem?_eq_getElem (by omega)]; simp
+        have := uux _ this
+        simp only []; omega)
+    refine ⟨?_, e2⟩
+    rw [e1, getD_psum n _ (by
+      intro l hl
+      simp only [List.mem_map] at hl
+      obtain ⟨r, hr, rfl⟩ := hl
+      obtain ⟨ex, nx, _, ep, np⟩ := rowfacts r hr
+      have l1 : (nttM (omegaZ P k j) j (r.2.map (ci q))).length = n := by rw [← ex]; simpa using nx
+      have l2 : (nttM (omegaZ P k j) j (r.1.map (ci q))).length = n := by rw [← ep]; simpa using np
+      simp [mulL, l1, l2]) i hi]
+    simp only [htr, List.map_map]
+    congr 1
+    apply List.map_congr_left
+    intro r hr
+    obtain ⟨ex, nx, _, ep, np⟩ := rowfacts r hr
+    simp only [Function.comp]
+    have l1 : (nttM (omegaZ P k j) j (r.2.map (ci q))).length = n := by rw [← ex]; simpa using nx
+    have l2 : (nttM (omegaZ P k j) j (r.1.map (ci q))).length = n := by rw [← ep]; simpa using np
+    rw [getD_mulL _ _ i (by omega) (by omega), ← ex, ← ep, getD_map_cz q _ i (by omega), getD_map_cz q _ i (by omega)]
+  have hsu : AllLe (2 ^ 64 - 1) slots := by
+    intro x hx
+    rw [List.mem_iff_getElem] at hx
+    obtain ⟨i, hi, rfl⟩ := hx
+    have := (hslot i (by omega)).2
+    rwa [List.getD_eq_getElem?_getD, List.getElem?_eq_getElem hi] at this
+  have hplen : (psum n (rows.map (fun r => mulL (nttM (omegaZ P k j) j (r.2.map (ci q))) (nttM (omegaZ P k j) j (r.1.map (ci q)))))).length = n :=
+    psum_length _ _ (by
+      intro l hl
+      simp only [List.mem_map] at hl
+      obtain ⟨r, hr, rfl⟩ := hl
+      obtain ⟨ex, nx, _, ep, np⟩ := rowfacts r hr
+      have l1 : (nttM (omegaZ P k j) j (r.2.map (ci q))).length = n := by rw [← ex]; simpa using nx
+      have l2 : (nttM (omegaZ P k j) j (r.1.map (ci q))).length = n := by rw [← ep]; simpa using np
+      simp [mulL, l1, l2])
+  have hS : slots.map (cz q) = psum n (rows.map (fun r => mulL (nttM (omegaZ P k j) j (r.2.map (ci q))) (nttM (omegaZ P k j) j (r.1.map (ci q))))) := by
+    apply List.ext_getElem
+    · simp [hslen, hplen]
+    · intro i h1 h2
+      have hi : i < n := by simpa [hslen] using h1
+      have := (hslot i hi).1
+      rw [List.getD_eq_getElem?_getD, List.getElem?_eq_getElem (by omega),
+        List.getD_eq_getElem?_getD, List.getElem?_eq_getElem h2] at this
+      simpa using this
+  obtain ⟨ei, _⟩ := inttK_real P k j g gi hj1 hj ti hti slots hslen hsu
+  unfold laneSumK
+  simp only []
+  rw [ei, hS]
+  -- Σ ntt(x)⊙ntt(p) = ntt (Σ p ⋆ x)
+  have hprod : rows.map (fun r => mulL (nttM (omegaZ P k j) j (r.2.map (ci q))) (nttM (omegaZ P k j) j (r.1.map (ci q)))) =
+      (rows.map (fun r => negMulR (r.1.map (ci q)) (r.2.map (ci q)))).map (nttM (omegaZ P k j) j) := by
+    rw [List.map_map]
+    apply List.map_congr_left
+    intro r hr
+    obtain ⟨l1, l2⟩ := hlen r hr
+    simp only [Function.comp]
+    rw [mulL_comm, ← nttM_mul _ j _ _ (by simpa using l1) (by simpa using l2) hω]
+  have hnl : ∀ l ∈ rows.map (fun r => negMulR (r.1.map (ci q)) (r.2.map (ci q))), l.length = 2 ^ j := by
+    intro l hl
+    simp only [List.mem_map] at hl
+    obtain ⟨r, hr, rfl⟩ := hl
+    rw [negMulR_length]; simpa using (hlen r hr).2
+  rw [hprod, ← nttM_psum _ j hω _ hnl,
+    inttM_nttM _ _ _ j (omegaInv_spec P k j g gi hj).1 (nInv_spec P k j g gi hj).1 _ (psum_length _ _ hnl)]
+  rw [map_sumPolys q n _ (by
+    intro a ha
+    simp only [List.mem_map] at ha
+    obtain ⟨r, hr, rfl⟩ := ha
+    rw [Hal.negMul_length]; exact (hlen r hr).2)]
+  rw [List.map_map]
+  congr 1
+  apply List.map_congr_left
+  intro r _
+  simp only [Function.comp]
+  exact (map_negMul q r.1 r.2).symm
+
+/-- **`vmp` on the NTT120 back end is exact below `Q/2`**: for `n = 2^j`, `1 ≤ j ≤ 16`, fewer than
+10 000 rows of `i64` limbs, if every coefficient of the exact sum `Σ_j p_j ⋆ x_j` is at most `(Q−1)/2` in
+absolute value, the pipeline (`vmp_prepare`, `dft_apply`, `vmp_apply_dft_to_dft`, `idft_apply`) returns it exactly -/
+theorem vmpPipeline_exact (P : PrimeSet) (g : P.Good) (ng : P.NttGood) (j : Nat) (hj1 : 1 ≤ j) (hj : j ≤ 16)
+    (rows : List (Poly × Poly)) (hell : rows.length < 10000)
+    (hlen : ∀ r ∈ rows, r.1.length = 2 ^ j ∧ r.2.length = 2 ^ j)
+    (hrng : ∀ r ∈ rows, (∀ c ∈ r.1, -(2 ^ 63) ≤ c ∧ c < 2 ^ 63) ∧ (∀ c ∈ r.2, -(2 ^ 63) ≤ c ∧ c < 2 ^ 63))
+    (hbound : ∀ i, i < 2 ^ j →
+      -(((bigQ P : Int) - 1) / 2) ≤ (Hal.sumPolys (2 ^ j) (rows.map (fun r => Hal.negMul r.1 r.2))).getD i 0 ∧
+      (Hal.sumPolys (2 ^ j) (rows.map (fun r => Hal.negMul r.1 r.2))).getD i 0 ≤ ((bigQ P : Int) - 1) / 2) :
+    vmpPipeline P (2 ^ j) rows = Hal.sumPolys (2 ^ j) (rows.map (fun r => Hal.negMul r.1 r.2)) := by
+  obtain ⟨hh, hh2⟩ := bbcH_range P
+  set tgt := Hal.sumPolys (2 ^ j) (rows.map (fun r => Hal.negMul r.1 r.2)) with htgt
+  have htl : ∀ q : Nat, (tgt.map (ci q)).length = tgt.length := fun q => by simp
+  have lane : ∀ k, k < 4 → (tgt.length = 2 ^ j) ∧ ∀ i, i < 2 ^ j →
+      ((laneSumK (P.qs.getD k 1) (bbcH P) (2 ^ j) (realNtt P (2 ^ j) k) (realIntt P (2 ^ j) k) rows).getD i 0 : Int) ≡
+        tgt.getD i 0 [ZMOD (P.qs.getD k 1 : Nat)] := by
+    intro k hk
+    obtain ⟨gf, gi⟩ := ng k hk
+    obtain ⟨t, ht⟩ := nttTableK_ok P k j gf hj1 hj
+    obtain ⟨ti, hti⟩ := inttTableK_ok P k j gi hj1 hj
+    rw [realNtt_eq P _ k t ht, realIntt_eq P _ k ti hti]
+    have e := laneSumK_real P k j (bbcH P) gf gi hj1 hj hh hh2 t ti ht hti rows hell hlen hrng
+    have hl : tgt.length = 2 ^ j := by
+      have h1 := congrArg List.length (map_sumPolys (P.qs.getD k 1) (2 ^ j) (rows.map (fun r => Hal.negMul r.1 r.2)) (by
+        intro a ha
+        simp only [List.mem_map] at ha
+        obtain ⟨r, hr, rfl⟩ := ha
+        rw [Hal.negMul_length]; exact (hlen r hr).2))
+      rw [List.length_map, psum_length _ _ (by
+        intro l hl
+        simp only [List.mem_map] at hl
+        obtain ⟨a, ⟨r, hr, rfl⟩, rfl⟩ := hl
+        rw [List.length_map, Hal.negMul_length]; exact (hlen r hr).2)] at h1
+      exact h1
+    exact ⟨hl, fun i hi => getD_of_map_eq _ _ _ e i (by rw [hl]; exact hi)⟩
+  have hl := (lane 0 (by omega)).1
+  unfold vmpPipeline
+  simp only []
+  apply List.ext_getElem
+  · simp [hl]
+  · intro i h1 h2
+    simp only [List.length_map, List.length_range] at h1
+    rw [List.getElem_map, List.getElem_range]
+    have hb := hbound i h1
+    have e : tgt[i] = tgt.getD i 0 := by
+      rw [List.getD_eq_getElem?_getD, List.getElem?_eq_getElem h2]; rfl
+    rw [e]
+    exact bToZnx128Core_exact P g _ _ _ _ _ hb.1 hb.2 ((lane 0 (by omega)).2 i h1) ((lane 1 (by omega)).2 i h1)
+      ((lane 2 (by omega)).2 i h1) ((lane 3 (by omega)).2 i h1)
+
 end Ntt120
